@@ -382,8 +382,11 @@ def eval_probe(case):
 def spaces(tier, seed):
     cells = [[list(s), list(a) if isinstance(a, tuple) else a, list(k) if isinstance(k, tuple) else k]
              for s in SHAPES for a in AXES for k in KSHAPES]
-    return [ListSpace('kwargs-grid', cells, eval_cell, bounds={'shapes': SHAPES, 'axes': [repr(a) for a in AXES], 'list_shapes': len(KSHAPES)},
+    sp = [ListSpace('kwargs-grid', cells, eval_cell, bounds={'shapes': SHAPES, 'axes': [repr(a) for a in AXES], 'list_shapes': len(KSHAPES)},
                       describe='complete array shape x axis x option-list shape grid: check_kwargs_shape + the real group call + BycycleGroup.fit'),
             ListSpace('param-probes', probes(), eval_probe,
                       describe='each documented parameter just outside / on / just inside its range, unknown enumerated values, '
                                'wrong dimensionality, plot before fit, through every entry point')]
+    for x in sp:
+        x.task_timeout = 150 if tier == 'quick' else 600       # every task is a single call of a second at most
+    return sp
